@@ -12,7 +12,10 @@ func init() {
 }
 
 func planC02(c *Ctx) epochPlan {
-	seeds := []string{"xor", "evolved", "disc", "rand", "randrec"}
+	seeds := []string{"xor", "evolved", "disc", "rand", "randrec", "hb3", "read", "hb4"}
+	if !c.Quick() {
+		seeds = append(seeds, "hb1", "hb5")
+	}
 	modes := []string{"whole", "phase", "perspecies", "par", "whole", "parrev"}
 	fits := []int{0, 1, 2, 3, 4, 5, 6}
 	pl := epochPlan{prop: "C02", oracles: oPop}
